@@ -30,7 +30,7 @@ RULE = (
     "every construct boundary, at line start and mid-line where legal; x 4 construction paths. distinct = "
     "(document, fault class, position); non-trivial = the fault lies beyond line 1."
 )
-RULE += " added since: faults on continued control lines, in attribute expressions on a later line of the tag, at the end of multi-line def/block/page/call signatures; the HTML error page's reported line; a faulty template reached through <%include>; quick n=250 documents. anonymous block in <%namespace>, named block in <%call> and in a nested def, two or three lines below the enclosing tag. a duplicate block planted inside the block whose name it repeats, one and two levels down. faults on the 2nd / 3rd line of wrapped def, block, page and call signatures and call expressions. faults on later lines of wrapped filter lists (expression, def, page, text)."
+RULE += " added since: faults on continued control lines, in attribute expressions on a later line of the tag, at the end of multi-line def/block/page/call signatures; the HTML error page's reported line; a faulty template reached through <%include>; quick n=250 documents. anonymous block in <%namespace>, named block in <%call> and in a nested def, two or three lines below the enclosing tag. a duplicate block planted inside the block whose name it repeats, one and two levels down. faults on the 2nd / 3rd line of wrapped def, block, page and call signatures and call expressions. faults on later lines of wrapped filter lists (expression, def, page, text). path lookup-reload (a well-formed version loaded first, the faulty text met on the re-check)."
 ASSUMPTIONS = [
     "CPython's SyntaxError.lineno on the embedded code decides which physical line is 'the offending Python line'",
     "the emitter's line/column counter in checks/c11.py is the reference for positions",
@@ -216,6 +216,23 @@ def build(r, fault, nl):
     return text, line, cols
 
 
+def _reload_through_lookup(L, d, text):
+    import time as _time
+
+    fp = os.path.join(d, "r.html")
+    with open(fp, "w", newline="") as f:
+        f.write("well formed ${1 + 1}\n")
+    past = _time.time() - 30
+    os.utime(fp, (past, past))
+    lk = L(directories=[d], filesystem_checks=True)
+    lk.get_template("r.html").render_unicode()
+    with open(fp, "w", newline="") as f:
+        f.write(text)
+    future = _time.time() + 30
+    os.utime(fp, (future, future))
+    return lk.get_template("r.html")
+
+
 def run_fault(r, fault, nl, res):
     T = _st["Template"]
     L = _st["TemplateLookup"]
@@ -236,6 +253,8 @@ def run_fault(r, fault, nl, res):
         # compiled while ANOTHER template is rendering (an include): what is reported and displayed is still the
         # faulty template, not the one that was executing
         "included": (lambda: L(directories=[d]).get_template("main_.html").render_unicode(), fn),
+        # a lookup that loaded a WELL-FORMED version first and meets the faulty text when it re-checks the file
+        "lookup-reload": (lambda: _reload_through_lookup(L, d, text), os.path.join(d, "r.html")),
     }
     with open(os.path.join(d, "main_.html"), "w") as f:
         f.write("first line\nsecond line ${1 + 1}\n<%include file=\"t.html\"/>\nlast line\n")
@@ -300,7 +319,7 @@ def run_fault(r, fault, nl, res):
                 res.violate("fault-accepted-" + fault["name"], "%s compiled without error" % what, witness=fault["name"], replay_case=rc)
         if len(set(seen.values())) > 1:
             res.violate("paths-disagree", "%s: %r" % (what0, seen), replay_case=rc)
-        elif len(seen) == 5:
+        elif len(seen) == len(paths):
             res.count("paths_agree")
         if line > 1:
             res.nontrivial("c11", text, fault["name"])
